@@ -97,6 +97,7 @@ def run(ctx):
     r = next(r for r in recs if r.ops and r.p["kind"] == "Variable")
     ctx.sample({"params": r.p, "chunk_sizes": [o["n"] for o in r.ops if o["op"] == "u"], "granted": [o["idx"] for o in r.ops if o["op"] == "u"]})
     biqf_chunking(ctx)
+    X.biqf_model_correspondence(ctx, "c10")
     X.strategy_purity(ctx, report_update=True, report_purity=False)
     ctx.extra["exhaustive"] = False
 
